@@ -118,6 +118,9 @@ pub fn run(park_index: usize, mode: &str) {
                 let addr = if g.len() > 0 { g.ptr(AssemblyOffset(0)) as usize } else { 0 };
                 known_addr.store(addr, Ordering::SeqCst);
                 out.lock().unwrap().push(format!("returned {} ver={} prot={} wx={}", label, version_of(&g, &vs), prot_of(addr), any_wx() as u8));
+                drop(g);
+                // an observation point BETWEEN two API calls (nothing is locked here): a reader parked on can hold its guard while the next operation starts
+                dynasmrt::verif_hooks::point("api.boundary");
             };
             for i in 0..16u8 { ops.push(0xA0 | i); }
             ops.commit().unwrap();
